@@ -213,8 +213,8 @@ def oracle(case):
         w = wref(L, cfg["psll"])
         Sx = tol.seg_scale(x, D, L, w, cfg["order"])
         Sy = Sx if y is None else tol.seg_scale(y, D, L, w, cfg["order"])
-        buds = {"XX": tol.budget2(L, om, Sx), "YY": tol.budget2(L, om, Sy), "XY": tol.budget2(L, om, (Sx ** 0.5 * Sy ** 0.5)),
-                "M2": tol.budget4(L, om, Sx, Sy)}
+        buds = {"XX": tol.budget2(L, om, Sx, len(D)), "YY": tol.budget2(L, om, Sy, len(D)), "XY": tol.budget2(L, om, (Sx ** 0.5 * Sy ** 0.5), len(D)),
+                "M2": tol.budget4(L, om, Sx, Sy, len(D))}
         for k, bud in buds.items():
             a, b = getattr(res, k)[j], getattr(ref, k)[j]
             if not abs(a - b) <= 2 * bud:
